@@ -101,3 +101,30 @@ pub fn vx_array_prefix<'a>(b: &'a [u8; 1024], n: usize) -> (r: &'a [u8])
     requires n <= 1024
     ensures r@ == b@.take(n as int)
 { &b[..n] }
+
+// ---- decoding ---------------------------------------------------------------------------------
+// per-page decoding of a byte string (total: malformed sequences become U+FFFD)
+pub uninterp spec fn dec_page(cp: CodePage, b: Seq<u8>) -> Seq<char>;
+pub uninterp spec fn dec_utf8(b: Seq<u8>) -> Seq<char>;
+pub uninterp spec fn dec_utf16le(b: Seq<u8>) -> Seq<char>;
+pub uninterp spec fn dec_utf16be(b: Seq<u8>) -> Seq<char>;
+pub open spec fn has_prefix(b: Seq<u8>, p: Seq<u8>) -> bool { b.len() >= p.len() && b.take(p.len() as int) == p }
+// what encoding_rs documents for `Encoding::decode`: "BOM sniffing" -- input that starts with a
+// UTF-8 / UTF-16LE / UTF-16BE byte order mark is decoded in THAT encoding, without the mark,
+// whatever encoding `decode` was called on; otherwise in the page's own encoding
+pub open spec fn dec_sniffing(cp: CodePage, b: Seq<u8>) -> Seq<char> {
+    if has_prefix(b, seq![0xefu8, 0xbbu8, 0xbfu8]) { dec_utf8(b.skip(3)) }
+    else if has_prefix(b, seq![0xffu8, 0xfeu8]) { dec_utf16le(b.skip(2)) }
+    else if has_prefix(b, seq![0xfeu8, 0xffu8]) { dec_utf16be(b.skip(2)) }
+    else { dec_page(cp, b) }
+}
+// X7 call shims for `enc.decode(bytes).0.into_owned()` and
+// `enc.decode_without_bom_handling(bytes).0.into_owned()`
+#[verifier::external_body]
+pub fn vx_decode_sniffing(enc: &'static Encoding, bytes: &[u8]) -> (r: String)
+    ensures r@ == dec_sniffing(enc.page(), bytes@)
+{ unimplemented!() }
+#[verifier::external_body]
+pub fn vx_decode_plain(enc: &'static Encoding, bytes: &[u8]) -> (r: String)
+    ensures r@ == dec_page(enc.page(), bytes@)
+{ unimplemented!() }
